@@ -84,6 +84,13 @@ def boundary_lens():
     return sorted(out)
 
 
+BIG_LENS = [2 ** 20 - 1, 2 ** 20, 2 ** 20 + 1, 2 * 2 ** 20 + 3, 3 * 2 ** 20 + 7]
+
+
+def big_specs(n):
+    return [('str', {'S': ['a', n]}), ('str-mb', {'S': ['\u20aca', n // 2]}), ('bin', {'B': [0xc1, n]}), ('ext', {'E': [5, 0x90, n]})]
+
+
 def len_specs(n):
     """One spec per container/string family, all of length n."""
     out = [
